@@ -236,7 +236,7 @@ package layer4
 //@ func (routes RouteList) Compile$1(cx *Connection) (err error)
 //@ requires wfcx(cx) && wf(cx) && !cx.matching && !isnil(next) && logger != nil
 //@ requires[inv] validroutes(routes)
-//@ safety C02 C05
+//@ safety C02 C05 C01
 //@ invariant wfcx(cx) && wf(cx) && !cx.matching
 //@ invariant lastMatchedRouteIdx >= -1 && lastMatchedRouteIdx < len(routes) && lastNeedsMoreIdx >= -1
 //@ invariant !isnil(handler)
